@@ -192,11 +192,11 @@ func wrap(n int, f func(i int, w *envio.LimitWriter) error) []func(w *envio.Limi
 
 func runC07(r *core.Run) {
 	r.Assume("after the fault the reader returns only the error (error-forever) or io.EOF (error-once), never more data")
-	r.Bound("read-side", "per format: every well-formed small and medium corpus file, the ~9 KiB file and the long-line file (one line of 5000+ bytes, so faults land inside a line that spans two buffer fills) x EVERY fault offset 0..len x {error once then EOF, error forever} x {error alone, together with the last bytes} x {maximal reads, 1-byte reads}"+core.Pick(r, " (quick tier, 9 KiB file: maximal reads and the plans {once+alone, forever+with data} only)", ""))
+	r.Bound("read-side", "per format: every well-formed small and medium corpus file, the 15 placeholder-token files (\"*\", \".\", \"=\", \"0\", \"-\", \"+\", \"@\", \">\", \"#\", \";\", \"~\", \"NA\", \"\\\\N\", \"?\", \"%s\" at the start of every text field, alone and followed by more text), the ~9 KiB file and the long-line file (one line of 5000+ bytes, so faults land inside a line that spans two buffer fills) x EVERY fault offset 0..len x {error once then EOF, error forever} x {error alone, together with the last bytes} x {maximal reads, 1-byte reads}"+core.Pick(r, " (quick tier, 9 KiB file: maximal reads and the plans {once+alone, forever+with data} only)", ""))
 	core.Clause(r, "read-faults", core.Opts{Rule: "fault plans enumerated completely per input; oracle: leading records of the fault-free decode, then >= 1 error items and nothing else, iteration ends within the horizon (fault-free items + 16; a reader polled > 2000 times after the fault counts as non-terminating); non-trivial = fault strictly inside the data and at least one record before it"},
 		func(emit func(c07Read) bool) {
 			for _, f := range formats {
-				for _, size := range []string{"small", "medium", "large", "longline"} {
+				for _, size := range []string{"small", "medium", "vocab", "large", "longline"} {
 					for i, d := range corpus(f.Name, size) {
 						for at := 0; at <= len(d); at++ {
 							for _, forever := range []bool{false, true} {
